@@ -199,6 +199,18 @@ def relabel_op(op):
 STOP = "stop: same exception on both sides"
 
 
+def dump_vs_tasks(mgr):
+    """dump() must describe the definitions the manager holds NOW (read independently from its task table)."""
+    import xdeps.tasks as T
+    held = sorted((str(t.taskid), str(t.expr)) for t in mgr.tasks.values() if isinstance(t, T.ExprTask))
+    got = sorted(map(tuple, mgr.dump()))
+    if got != held:
+        a, b = dict(got), dict(held)
+        return "dump() does not list the definitions the manager holds: %s" % (
+            [(k, a.get(k), b.get(k)) for k in sorted(set(a) | set(b)) if a.get(k) != b.get(k)][:3],)
+    return None
+
+
 def mirrored(real, twin, op, op2, counters, relab=False):
     out = []
     for rn, o in ((real, op), (twin, op2)):
@@ -209,6 +221,9 @@ def mirrored(real, twin, op, op2, counters, relab=False):
             exc = type(e).__name__
         cont = {k: canon(v) for k, v in rn.contents().items()}
         out.append((exc, cont, sorted(map(tuple, rn.mgr.dump()))))
+        stale = dump_vs_tasks(rn.mgr)
+        if stale:
+            return "follow-up %s: %s" % (op[0], stale)
     counters["followups_compared"] = counters.get("followups_compared", 0) + 1
     (ea, ca, da), (eb, cb, db) = out
     if ea != eb:
@@ -295,8 +310,12 @@ def part_bc(spec, rng, counters, digests, samples, violations, known):
                         except Exception:
                             continue
                         kept[str(twin.mkref(path))] = str(twin.mgr.tasks[twin.mkref(path)].expr)
+                    twin.mgr.dump()            # what is there before loading (a query: must not influence later answers)
                     twin.mgr.load(dump, overwrite=False)
                     got = dict(twin.mgr.dump())
+                    stale = dump_vs_tasks(twin.mgr)
+                    if stale:
+                        violations.append(dict(wit, what="C11 after load(overwrite=False): " + stale))
                     for k, v in kept.items():
                         if got.get(k) != v:
                             violations.append(dict(wit, what="C11 load(overwrite=False) replaced the existing definition of %s: %r -> %r" % (k, v, got.get(k))))
@@ -307,7 +326,13 @@ def part_bc(spec, rng, counters, digests, samples, violations, known):
                             [(k, got.get(k), want.get(k)) for k in set(got) | set(want) if got.get(k) != want.get(k)][:3])))
                     counters["managers_loaded"] = counters.get("managers_loaded", 0) + 1
                     continue
+                twin.mgr.dump()                # the (empty) state before loading
+                labels_before = dict(twin.mgr.containers)
                 twin.mgr.load(dump)
+                if set(labels_before) != set(twin.mgr.containers) or any(twin.mgr.containers[k] is not v for k, v in labels_before.items()):
+                    violations.append(dict(wit, what="C11 load() changed the receiving manager's label -> container map: %s -> %s" % (
+                        sorted(labels_before), sorted(map(str, twin.mgr.containers)))))
+                    continue
                 counters["managers_loaded"] = counters.get("managers_loaded", 0) + 1
                 if sorted(map(tuple, twin.mgr.dump())) != sorted(map(tuple, dump)):
                     a, b = dict(dump), dict(twin.mgr.dump())
@@ -358,6 +383,7 @@ def part_bc(spec, rng, counters, digests, samples, violations, known):
                     m3.mgr.register(T.ExprTask(m3.mkref(path), m3.build(rt(term))))
                 bindings = {real.refs["r"]: twin.refs["s"]["sub"]} if relab else None
                 labels_before = dict(twin.mgr.containers)
+                twin.mgr.dump(), m3.mgr.dump()       # what is there before copying
                 twin.mgr.copy_expr_from(real.mgr, "r", bindings=bindings, overwrite=not mode.endswith("-keep"))
                 counters["managers_copied"] = counters.get("managers_copied", 0) + 1
                 labels_after = dict(twin.mgr.containers)
@@ -371,6 +397,10 @@ def part_bc(spec, rng, counters, digests, samples, violations, known):
                             m3.mgr.register(T.ExprTask(m3.mkref(mgrmon.ck_to_path(ck)), m3.build(term)))
                     twin.mgr.copy_expr_from(real.mgr, "r")
                     counters["rebound_then_plain_copies"] = counters.get("rebound_then_plain_copies", 0) + 1
+                stale = dump_vs_tasks(twin.mgr) or dump_vs_tasks(m3.mgr)
+                if stale:
+                    violations.append(dict(wit, what="C11 after copy_expr_from (%s): %s" % (mode, stale)))
+                    continue
                 a, b = dict(m3.mgr.dump()), dict(twin.mgr.dump())
                 if a != b:
                     violations.append(dict(wit, what="C11 copy_expr_from (%s): definitions differ from the directly built manager: %s" % (
